@@ -652,8 +652,8 @@ pub fn cases_c04(cfg: &Cfg) -> Vec<Case> {
     let lens: Vec<usize> = match (cfg.scale, cfg.tier) {
         (Scale::Tiny, Tier::Quick) => vec![0, 3],
         (Scale::Tiny, Tier::Thorough) => vec![0, 1, 40],
-        (_, Tier::Quick) => vec![0, 1, 2, 300, 2100],
-        _ => vec![0, 1, 2, 5, 255, 256, 257, 2049, 9000],
+        (_, Tier::Quick) => vec![0, 1, 2, 300, 2048, 4096],
+        _ => vec![0, 1, 2, 5, 255, 256, 257, 2048, 2049, 4096, 6144, 9000],
     };
     for (ai, alias) in all_aliases.iter().enumerate() {
         let alias: &'static str = alias;
